@@ -42,6 +42,7 @@ class Lockstep:
         self.obs = []
         self.notes = []
         self.seen = set()
+        self._p0 = {}
         self.stats = {"real_paths": 0, "spec_paths": 0, "loops": 0}
 
     def ob(self, name, hyps, goal, info, families=None):
@@ -103,9 +104,42 @@ class Lockstep:
         return []
 
     # ------------------------------------------------------------------------------------------------
+    def relate_events(self, name, hyps, rev, sev, info):
+        """the partial operations passed on the real path and on the spec path must be the same, in the same order: then both
+        raise the same exception at the same point or neither does. Operations that provably cannot fail here are dropped."""
+        def live(events):
+            out = []
+            for (c, msg, line) in events:
+                key = (c.sexpr(), tuple(h.sexpr() for h in hyps[-40:]))
+                r = self._p0.get(key)
+                if r is None:
+                    s = self.ctx._solver()
+                    s.push()
+                    try:
+                        s.add(*hyps)
+                        s.add(c != 0)
+                        r = s.check() == z3.unsat
+                    finally:
+                        s.pop()
+                    self._p0[key] = r
+                if not r:
+                    out.append((c, msg, line))
+            return out
+        rl, sl = live(rev), live(sev)
+        if len(rl) != len(sl):
+            extra = rl[len(sl):] if len(rl) > len(sl) else sl[len(rl):]
+            side = "real" if len(rl) > len(sl) else "spec"
+            self.ob(name + "/may-raise", hyps, z3.BoolVal(False),
+                    info + "; the %s path passes a partial operation the other does not (line %s): %s" % (side, extra[0][2], str(extra[0][0])[:160]))
+            return
+        for (c1, m1, l1), (c2, m2, l2) in zip(rl, sl):
+            if c1.sexpr() != c2.sexpr():
+                self.ob(name + "/may-raise", hyps, c1 == c2, info + "; partial operation at real line %s: %s" % (l1, str(c1)[:120]))
+
     def compare_final(self, fname, ro, so, st0):
         hyps = so.st.conds
         info = "real %s (line %s) vs spec %s" % (ro.describe(), ro.line, so.describe())
+        self.relate_events("%s/post" % fname, hyps, ro.st.events, so.st.events, info)
         if ro.kind != so.kind:
             self.ob("%s/post/outcome" % fname, hyps, z3.BoolVal(False), info)
             return
@@ -132,6 +166,8 @@ class Lockstep:
         allowed = set()
         for m in self.c.modifies:
             allowed.add(m.split(".")[-1] if "." in m else m)
+        if self.c.ctor:
+            allowed |= set(self.c.d.get("fields", []))
         for g, v in ro.st.glob.items():
             if g not in allowed and v is not st0.glob.get(g):
                 self.ob("%s/frame:%s" % (fname, g), ro.st.conds, values_equal(v, st0.glob.get(g)), "global %s written but not in modifies" % g)
@@ -158,6 +194,25 @@ class Lockstep:
                 kind, rest = ks.split(":", 1)
                 kr = kind + ":" + rename.get(rest, rest) if kind == "local" else ks
                 kmap[ks] = kr
+            # locals that are named differently on the two sides are paired by their (syntactically equal) value at loop entry
+            taken = set(kmap.values())
+            for ks in written_s:
+                if kmap[ks] in rec.cin or not ks.startswith("local:"):
+                    continue
+                vs = ex.loc_by_key(ks).get(p)
+                if vs is None:
+                    continue
+                cands = []
+                for kr in rec.written:
+                    if kr.startswith("local:") and kr not in taken and rec.entry_vals.get(kr) is not None:
+                        try:
+                            if asV(rec.entry_vals[kr]).sexpr() == asV(vs).sexpr():
+                                cands.append(kr)
+                        except TypeError:
+                            pass
+                if len(cands) == 1:
+                    kmap[ks] = cands[0]
+                    taken.add(cands[0])
             for ro in rec.body:
                 q = p.copy()
                 q.conds = list(p.conds) + [c for c in ro.st.conds if not any(c is d for d in p.conds)]
@@ -167,6 +222,7 @@ class Lockstep:
                 ex.havoc(q, written_s, "x", consts=consts_in)
                 q.loops = list(p.loops)          # inner loops of the spec body pair with the inner records of this real body path
                 sub = Exec(ex.ctx, "spec", fname)
+                sub.fn_locals = ex.fn_locals
                 inner_real = ro.st.loops
                 sub.loop_hook = ls.make_hook(inner_real, fname)
                 sub.ret_sink = []
@@ -182,6 +238,7 @@ class Lockstep:
                 for so in souts:
                     info = "one iteration: real %s (line %s) vs spec %s" % (ro.describe(), ro.line, so.describe())
                     hyps = so.st.conds
+                    ls.relate_events(lname + "/step", hyps, ro.st.events[rec.n_events:], so.st.events[len(p.events):], info)
                     if ro.kind != so.kind:
                         ls.ob(lname + "/step/outcome", hyps, z3.BoolVal(False), info)
                         continue
@@ -217,33 +274,50 @@ class Lockstep:
                 raise LoopMismatch("real record without exit constants")
             ex_rec.cout = {ks: (rec.cout[kmap[ks]] if kmap[ks] in rec.cout else fresh("specout_" + ks.split(":", 1)[1][-20:])) for ks in written_s}
             ex_rec.exit, ex_rec.retv, ex_rec.msg = rec.exit, rec.retv, rec.msg
+            ex_rec.n_events = rec.n_events
             return ex.after_loop(ex_rec, p)
         return hook
 
 
 # ---------------------------------------------------------------------------------------------------------------------
+_shared = {}
+
+
 def solve(ctx, ob, timeout_ms=10000):
-    """returns (status, backend, detail, time)"""
+    """returns (status, backend, detail, time). One shared solver (axioms asserted once), push/pop per obligation."""
     t0 = time.time()
     if ob.goal is None:
         return "undecided", "none", ob.info, 0.0
-    s = z3.Solver()
-    s.set("timeout", timeout_ms)
-    s.add(*ctx.axioms)
-    s.add(*ctx.extra_axioms)
-    s.add(*ob.hyps)
-    r0 = s.check()
-    if r0 == z3.unsat:
-        return "infeasible", "z3", "", time.time() - t0
-    s.add(z3.Not(ob.goal))
-    r = s.check()
+    if z3.is_true(ob.goal):
+        return "discharged", "syntactic", "", 0.0
+    s = _shared.get(id(ctx))
+    if s is None:
+        s = z3.Solver()
+        s.set("timeout", timeout_ms)
+        s.add(*ctx.axioms)
+        s.add(*ctx.extra_axioms)
+        _shared[id(ctx)] = s
+    s.push()
+    try:
+        s.add(*ob.hyps)
+        s.add(z3.Not(ob.goal))
+        r = s.check()
+        why = s.reason_unknown() if r == z3.unknown else ""
+        if r != z3.unsat:
+            # is the path itself feasible? (an infeasible pair of outcomes is no obligation)
+            s.pop()
+            s.push()
+            s.add(*ob.hyps)
+            if s.check() == z3.unsat:
+                return "infeasible", "z3", "", time.time() - t0
+    finally:
+        s.pop()
     dt = time.time() - t0
     if r == z3.unsat:
         return "discharged", "z3", "", dt
     if r == z3.sat:
         return "failed", "z3", ob.info + " [counter-model]", dt
-    why = s.reason_unknown()
-    if "incomplete quantifiers" in why or "incomplete" in why:
+    if "incomplete" in why:
         # E-matching saturated without refuting the negated goal: a candidate counter-model exists (see terms.py)
         return "failed", "z3", ob.info + " [candidate counter-model; quantifier instantiation saturated]", dt
     return "undecided", "z3", "solver answered unknown (%s): %s" % (why, ob.info), dt
